@@ -251,6 +251,8 @@ def plan(seed, tier="quick", index=0):
         "short_read_rate": rng.choice([0.0, 0.0, 0.1, 0.4]),
         "stop": {"mode": "quiescent"},
         "peers": peers,
+        # the wall clock may step while the node runs (only time.time() moves; timeouts are monotonic)
+        "clock_jumps": [[round(rng.random() * 3.0, 3), rng.choice([3600.0, -3600.0, -86400.0, 7.0])] for _ in range(rng.choice([0, 0, 0, 1, 2]))],
     }
     if stratum == "stop-at":
         horizon = max(s[0] for p in peers for s in p["segments"]) + 0.5
@@ -399,6 +401,14 @@ def execute(scenario, tape=None, keep_events=False):
     net = Net(sched, peers, faults, sub_rng(seed, "net"), short_read_rate=scenario["short_read_rate"])
     clock = SimClock(sched, scenario["epoch"])
     ctx = Ctx(sched, probes)
+    for jt, jd in scenario.get("clock_jumps", []):
+
+        def _jump(jd=jd):
+            clock.offset += jd
+            faults.hit("wall-clock-jump")
+            log.add(sched.now, "clock", "jump", jd)
+
+        sched.at(jt, _jump, kind="timeout")
     net.send_hook = lambda sock, data: ctx.qstep(sched.me(), "send")
     sched.register_main()
     node = None
